@@ -42,7 +42,7 @@ type c17Embed struct {
 	Mode string `json:"mode"` // root (struct is the root data) | var (struct is a variable, reached by a path)
 }
 
-var c17EmbedRoots = []string{"A", "*A", "B", "P", "P-nil", "*P-nil"}
+var c17EmbedRoots = []string{"A", "*A", "B", "P", "P-nil", "*P-nil", "dotkey"}
 
 func c17NEmbed() int { return len(c17EmbedRoots) * 2 }
 
@@ -50,7 +50,56 @@ func c17GenEmbed(i int) c17Case {
 	return c17Case{Part: "embed", Embed: &c17Embed{Root: c17EmbedRoots[i%len(c17EmbedRoots)], Mode: []string{"root", "var"}[(i/len(c17EmbedRoots))%2]}}
 }
 
+// dotkey: map keys that contain a dot or a bracket can only be written in the
+// quoted-bracket form; they are one step, as in Go's m["a.b"].
+func c17ExecDotKey(c c17Case, o *core.Obs) {
+	e := *c.Embed
+	m := map[string]any{"a.b": 1, "a": map[string]any{"b": 2}, "only.dot": 4, "x]y": 3, "k": map[string]any{"p.q": []any{"zero", "one"}}}
+	o.Evals++
+	o.NT("embed", mustJSON(e))
+	o.Cell("part/embed/dotkey/" + e.Mode)
+	var s *vuego.Stack
+	prefix := "M"
+	if e.Mode == "root" {
+		s = vuego.NewStackWithData(map[string]any{"M": m}, nil)
+	} else {
+		s = vuego.NewStack(map[string]any{"w": map[string]any{"M": m}})
+		prefix = "w.M"
+	}
+	for _, t := range []struct {
+		path string
+		want any // nil: absent
+		cls  string
+	}{
+		{`['a.b']`, 1, "dot-in-quoted-key"}, {`["a.b"]`, 1, "dot-in-quoted-key"}, {`[ 'a.b' ]`, 1, "dot-in-quoted-key"}, {`.a.b`, 2, "plain"}, {`['a']['b']`, 2, "plain"}, {`['a'].b`, 2, "plain"},
+		{`['only.dot']`, 4, "dot-in-quoted-key"}, {`.only.dot`, nil, "plain"}, {`['x]y']`, 3, "bracket-in-quoted-key"},
+		{`.k['p.q'][1]`, "one", "dot-in-quoted-key"}, {`['k']['p.q'].0`, "zero", "dot-in-quoted-key"}, {`['a.c']`, nil, "dot-in-quoted-key"},
+	} {
+		expr := prefix + t.path
+		var got any
+		var ok bool
+		func() {
+			defer func() {
+				if r := recover(); r != nil {
+					o.Fail(c, "embed/dotkey/panic/"+t.cls, "Resolve(%q) panicked: %v", expr, r)
+				}
+			}()
+			got, ok = s.Resolve(expr)
+		}()
+		switch {
+		case t.want == nil && ok:
+			o.Fail(c, "embed/dotkey/present-but-absent-expected/"+t.cls, "Resolve(%q) = (%v, true); Go indexing reaches nothing there", expr, got)
+		case t.want != nil && (!ok || fmt.Sprint(got) != fmt.Sprint(t.want)):
+			o.Fail(c, "embed/dotkey/wrong-or-absent/"+t.cls, "Resolve(%q) = (%v, %v); Go indexing gives %v", expr, got, ok, t.want)
+		}
+	}
+}
+
 func c17ExecEmbed(c c17Case, o *core.Obs) {
+	if c.Embed.Root == "dotkey" {
+		c17ExecDotKey(c, o)
+		return
+	}
 	e := *c.Embed
 	inner := C17EmbInner{ID: 7, Title: "inner-title", Only: "only-in"}
 	var val any
